@@ -5,6 +5,7 @@ package netmap
 // Add-only accessors for the irproc harness (C34, C38).
 
 import (
+	"github.com/panjf2000/ants/v2"
 	"time"
 
 	netmapEvent "github.com/nspcc-dev/neofs-node/pkg/morph/event/netmap"
@@ -17,6 +18,17 @@ func (np *Processor) VerifDrain() {
 		time.Sleep(20 * time.Microsecond)
 	}
 	<-done
+}
+
+// VerifBlockingPool replaces the non-blocking worker pool (which drops a task when its only worker
+// has not yet been returned to the idle list) by a blocking one of size 1, so that a submitted
+// task is never lost between two harness cases.
+func (np *Processor) VerifBlockingPool() {
+	p, err := ants.NewPool(1)
+	if err != nil {
+		panic(err)
+	}
+	np.pool = p
 }
 
 func (np *Processor) VerifProcessAddNode(ev netmapEvent.AddNode) { np.processAddNode(ev) }
